@@ -156,6 +156,9 @@ class Core(object):
             cap = self.writecap(self.write_calls, n, self.rng) if callable(self.writecap) else self.writecap
             n = max(0, min(n, cap))
         self.write_calls += 1
+        if n == 0 and len(data):
+            # a write that accepts nothing is a write that waited for buffer space in vain
+            self.clock.advance(0.05)
         acc = bytes(data[:n])
         self.written += acc
         self.sim.host_bytes(acc, actor)
